@@ -5,6 +5,8 @@ import (
 	"fmt"
 	"go/ast"
 	"go/parser"
+	"golang.org/x/tools/go/ssa"
+	"golang.org/x/tools/go/ssa/ssautil"
 	"os"
 	"path/filepath"
 	"sort"
@@ -32,24 +34,24 @@ type oblSummary struct {
 }
 
 type Report struct {
-	Prop     string
-	Tier     string
-	Seed     int
-	Funcs    []string
-	Summ     []*oblSummary
-	Failing  []*oblSummary
-	Vacuous  []string
-	Assume   []string
-	Externs  []string
-	Havocs   []string
-	Times    map[string]float64
-	Wall     float64
-	Known    []KnownFinding
-	Verbose  bool
-	Samples  []map[string]any
-	NQueries int
+	Prop      string
+	Tier      string
+	Seed      int
+	Funcs     []string
+	Summ      []*oblSummary
+	Failing   []*oblSummary
+	Vacuous   []string
+	Assume    []string
+	Externs   []string
+	Havocs    []string
+	Times     map[string]float64
+	Wall      float64
+	Known     []KnownFinding
+	Verbose   bool
+	Samples   []map[string]any
+	NQueries  int
 	DeadNotes []string
-	Bounded  []boundedResult
+	Bounded   []boundedResult
 }
 
 func buildReport(ck *Checker, prop, tier string, seed int, results []*funcResult, verbose bool) *Report {
@@ -159,6 +161,10 @@ func buildReport(ck *Checker, prop, tier string, seed int, results []*funcResult
 				rep.Failing = append(rep.Failing, s)
 			}
 		}
+	}
+	// preconditions are obligations only at call sites inside functions under contract; list the other call sites
+	for _, a := range uncheckedCallers(ck, results) {
+		assume[a] = true
 	}
 	for a := range assume {
 		rep.Assume = append(rep.Assume, a)
@@ -383,19 +389,19 @@ func (rep *Report) finish(ck *Checker, verif string, writeEvidence bool, engineE
 		"seed":        rep.Seed,
 		"level":       "proof",
 		"coverage": map[string]any{
-			"obligations":           total,
-			"discharged":            discharged,
-			"checker_cmd":           "bin/relicvc check " + rep.Prop + " --tier " + rep.Tier,
-			"trusted_base":          trusted,
+			"obligations":              total,
+			"discharged":               discharged,
+			"checker_cmd":              "bin/relicvc check " + rep.Prop + " --tier " + rep.Tier,
+			"trusted_base":             trusted,
 			"functions_under_contract": rep.Funcs,
-			"solver_queries":        rep.NQueries,
-			"obligation_list":       all,
-			"known_findings":        kl,
-			"samples":               samples,
-			"vacuity":               map[string]any{"problems": rep.Vacuous, "checks": "requires satisfiable per function; every finished path gets a feasibility query; at least one feasible return path per function; every control-flow edge explored must lie on a feasible path (else VACUOUS)", "accepted_dead_edges": rep.DeadNotes},
-			"times_s":               rep.Times,
-			"bounded_standins":      rep.Bounded,
-			"bounded_note":          "bounded stand-ins are exhaustive checks of the real code up to the stated bound; they are NOT counted in obligations/discharged",
+			"solver_queries":           rep.NQueries,
+			"obligation_list":          all,
+			"known_findings":           kl,
+			"samples":                  samples,
+			"vacuity":                  map[string]any{"problems": rep.Vacuous, "checks": "requires satisfiable per function; every finished path gets a feasibility query; at least one feasible return path per function; every control-flow edge explored must lie on a feasible path (else VACUOUS)", "accepted_dead_edges": rep.DeadNotes},
+			"times_s":                  rep.Times,
+			"bounded_standins":         rep.Bounded,
+			"bounded_note":             "bounded stand-ins are exhaustive checks of the real code up to the stated bound; they are NOT counted in obligations/discharged",
 		},
 		"assumptions": assumptions,
 		"wall_s":      rep.Wall,
@@ -429,4 +435,57 @@ func baselineRecord(verif, name string) any {
 // tryReplay drives a counterexample through the real code where a driver exists.
 func tryReplay(ck *Checker, prop string, o *Obligation) (bool, any) {
 	return replayObligation(ck, prop, o)
+}
+
+// uncheckedCallers: for every function verified in this run whose contract has preconditions, the static callers in the
+// loaded packages that are not themselves under contract - there the precondition is assumed, not established.
+func uncheckedCallers(ck *Checker, results []*funcResult) []string {
+	need := map[string]*FuncContract{}
+	for _, fr := range results {
+		if fr.Ctr != nil && len(fr.Ctr.Requires) > 0 && !fr.Ctr.Extern {
+			need[fr.Name] = fr.Ctr
+		}
+	}
+	if len(need) == 0 || ck.prog == nil {
+		return nil
+	}
+	seen := map[string]bool{}
+	var out []string
+	for fn := range ssautil.AllFunctions(ck.prog) {
+		if fn.Pkg == nil || fn.Blocks == nil || !strings.HasPrefix(fn.Pkg.Pkg.Path(), modulePath) {
+			continue
+		}
+		if c := ck.contractOf(fn); c != nil && !c.Extern {
+			continue // call sites in functions under contract carry a requires[...] obligation
+		}
+		if strings.HasSuffix(fn.Pkg.Pkg.Path(), "_test") || strings.HasSuffix(ck.fset.Position(fn.Pos()).Filename, "_test.go") {
+			continue
+		}
+		for _, b := range fn.Blocks {
+			for _, ins := range b.Instrs {
+				ci, ok := ins.(ssa.CallInstruction)
+				if !ok {
+					continue
+				}
+				callee, ok := ci.Common().Value.(*ssa.Function)
+				if !ok {
+					continue
+				}
+				name := callee.String()
+				if o := callee.Origin(); o != nil {
+					name = o.String()
+				}
+				if _, ok := need[name]; !ok {
+					continue
+				}
+				key := name + " <- " + fn.String()
+				if !seen[key] {
+					seen[key] = true
+					out = append(out, fmt.Sprintf("precondition of %s is assumed (not established) at its call in %s, which is not under contract", shortCallee(name), fn.String()))
+				}
+			}
+		}
+	}
+	sort.Strings(out)
+	return out
 }
